@@ -1073,8 +1073,8 @@ def falsify_resolution(ctx, ck):
                       (f"ir.Span(p, None, {-c})", "start", "start", 0, -c), (f"ir.Span(None, p, {-c})", "end", "end", 0, -c),
                       (f"ir.Span(p, ir.end + {k}, {c})", "start", "end", k, c),
                       (f"ir.Span(ir.start + {k}, p, {c})", "end", "start", k, c),
-                      (f"ir.Span(p, ir.start - {k}, {-c})", "start", "start", -k, -c),
-                      (f"ir.Span(ir.end - {k}, p, {-c})", "end", "end", -k, -c),
+                      (f"ir.Span(p, ir.start + {-k}, {-c})", "start", "start", -k, -c),
+                      (f"ir.Span(ir.end + {-k}, p, {-c})", "end", "end", -k, -c),
                       (f"(p >> None) >> {c}", "start", "end", 0, c), (f"(None >> p) + {k}", "end", "start", k, 1)]
             text, fixed, side, off, step = shapes[rng.randrange(len(shapes))] if rng.random() < 0.5 \
                 else rng.choice(shapes)
